@@ -1,9 +1,9 @@
 (** C05 — compile and search are total (partial: stack exhaustion on deep
     nesting and the self-applied expression reference are recorded known
-    findings; the lexer/parser/builtin bodies are decided by correspondence in
-    debug and release builds).  Statements only. *)
+    findings — the model proves absence of panics, not termination within a
+    stack budget; both are also exercised in child processes, debug and release).  Statements only. *)
 From JP Require Import Base F64 Value Sig Slice Functions Interp Spec.SliceSpec Spec.Semantics Spec.SigSpec
-     Lexer Parser Proofs.InterpProof Proofs.TotalProof Proofs.ParseErrProof.
+     Lexer Parser Proofs.InterpProof Proofs.TotalProof Proofs.ParseErrProof Proofs.CmpProof Proofs.NoTrapProof.
 
 (** Slices return for the whole 32-bit range of start/stop/step (no overflow, no out-of-bounds index, no loop). *)
 Theorem C05_slice_returns : forall (A : Type) (arr : list A) start stop step, i32_min <= step -> step <> 0 -> returns (slice arr start stop step).
@@ -29,3 +29,36 @@ Print Assumptions C05_core_search_returns.
 Theorem C05_compile_never_traps : forall s, parse s <> Trap.
 Proof. exact compile_never_traps. Qed.
 Print Assumptions C05_compile_never_traps.
+
+(** No builtin body traps behind a signature that guards what the body takes for
+    granted (the argument it indexes exist, [contains]/[length] see only the kinds
+    they match on), whatever the arguments and the expression evaluator are ... *)
+Theorem C05_builtins_never_trap : forall ev b sg args off, ev_nt ev -> sig_safe b sg = true -> nt (call_builtin ev b sg args off).
+Proof. exact call_builtin_nt. Qed.
+Print Assumptions C05_builtins_never_trap.
+
+(** ... and every entry of the default runtime — built from the registration list
+    and the signatures extracted from the source on this run — is guarded. *)
+Theorem C05_default_runtime_is_guarded : registry_safe default_runtime = true.
+Proof. vm_compute. reflexivity. Qed.
+Print Assumptions C05_default_runtime_is_guarded.
+
+(** search never panics: for every tree whose indexes are above i32::MIN (the
+    lexer cannot spell i32::MIN), every document whose expression references, if
+    any, are such trees (every JSON document), and every registry with guarded
+    builtins, evaluation — through all 26 builtins, projections, expression
+    references evaluated by sort_by/max_by/min_by/map — never reaches a trap; and
+    every value it produces is again safe. *)
+Theorem C05_search_never_traps : forall n rt a d,
+  registry_safe rt = true -> vok d = true -> tree_ok a = true -> search_ast n rt a d <> Trap.
+Proof. exact search_never_traps. Qed.
+Print Assumptions C05_search_never_traps.
+
+Theorem C05_json_documents_are_safe : forall v, no_expref v = true -> vok v = true.
+Proof. exact no_expref_vok. Qed.
+Print Assumptions C05_json_documents_are_safe.
+
+Theorem C05_evaluation_preserves_safety : forall n rt, registry_safe rt = true ->
+  forall d e o, vok d = true -> tree_ok e = true -> good (interp n rt d e o).
+Proof. exact interp_good. Qed.
+Print Assumptions C05_evaluation_preserves_safety.
